@@ -1,16 +1,179 @@
-(* Facts about the LMDB sub-db model: the byte order and sorted-list operations. *)
+(* Facts about the LMDB sub-db model: the byte order and operations on
+   sorted lists written as  A ++ B  around the position of a key. *)
 From Hio Require Import Base.Prelude Base.ListFacts Model.Lmdb.
 
+(* ---------- the lexicographic order ---------- *)
 Lemma bcmp_refl a : bcmp a a = Eq.
 Proof. induction a as [|x a IH]; simpl; [reflexivity|]. now rewrite N.compare_refl. Qed.
 
-Lemma db_get_put_same {V} ow (d : db V) k v :
-  ow = true -> db_get (fst (db_put ow d k v)) k = Some v.
+Lemma bcmp_eq a b : bcmp a b = Eq -> a = b.
 Proof.
-  intros ->. induction d as [|[k' v'] d IH]; simpl.
-  - now rewrite bcmp_refl.
-  - destruct (bcmp k k') eqn:E; simpl.
-    + now rewrite bcmp_refl.
-    + now rewrite bcmp_refl.
-    + destruct (db_put true d k v) as [r b] eqn:P. simpl in *. now rewrite E.
+  revert b. induction a as [|x a IH]; intros [|y b]; simpl; try discriminate; auto.
+  destruct (N.compare x y) eqn:E; try discriminate.
+  apply N.compare_eq in E. subst. intros H. f_equal. now apply IH.
 Qed.
+
+Lemma bcmp_antisym a b : bcmp b a = CompOpp (bcmp a b).
+Proof.
+  revert b. induction a as [|x a IH]; intros [|y b]; simpl; auto.
+  rewrite (N.compare_antisym x y). destruct (N.compare x y); simpl; auto.
+Qed.
+
+Lemma blt_irrefl a : blt a a = false.
+Proof. unfold blt. now rewrite bcmp_refl. Qed.
+
+Lemma blt_asym a b : blt a b = true -> blt b a = false.
+Proof. unfold blt. rewrite (bcmp_antisym a b). destruct (bcmp a b); simpl; congruence. Qed.
+
+Lemma blt_neq a b : blt a b = true -> a <> b.
+Proof. intros H ->. rewrite blt_irrefl in H. discriminate. Qed.
+
+Lemma bcmp_lt_trans a b c : bcmp a b = Lt -> bcmp b c = Lt -> bcmp a c = Lt.
+Proof.
+  revert b c. induction a as [|x a IH]; intros [|y b] [|z c]; simpl; try discriminate; auto.
+  destruct (N.compare x y) eqn:E1; try discriminate.
+  - apply N.compare_eq in E1. subst y. destruct (N.compare x z); try discriminate; auto. apply IH.
+  - intros _. destruct (N.compare y z) eqn:E2; try discriminate.
+    + apply N.compare_eq in E2. subst z. now rewrite E1.
+    + intros _. rewrite N.compare_lt_iff in *. assert (H : (x < z)%N) by lia.
+      apply N.compare_lt_iff in H. now rewrite H.
+Qed.
+
+Lemma blt_trans a b c : blt a b = true -> blt b c = true -> blt a c = true.
+Proof.
+  unfold blt. destruct (bcmp a b) eqn:E1; try discriminate. destruct (bcmp b c) eqn:E2; try discriminate.
+  intros _ _. now rewrite (bcmp_lt_trans a b c).
+Qed.
+
+Lemma blt_total a b : blt a b = false -> blt b a = false -> a = b.
+Proof.
+  unfold blt. rewrite (bcmp_antisym a b). destruct (bcmp a b) eqn:E; simpl; try discriminate.
+  intros _ _. now apply bcmp_eq.
+Qed.
+
+Lemma bcmp_app_l p a b : bcmp (p ++ a) (p ++ b) = bcmp a b.
+Proof. induction p as [|x p IH]; simpl; auto. now rewrite N.compare_refl. Qed.
+
+Lemma blt_app_l p a b : blt (p ++ a) (p ++ b) = blt a b.
+Proof. unfold blt. now rewrite bcmp_app_l. Qed.
+
+(* ---------- sorted lists ---------- *)
+Section Sorted.
+  Context {V : Type}.
+  Notation db := (db V).
+  Implicit Types A B d : Lmdb.db V.
+
+  Definition klt (x : bytes) (d : db) : Prop := Forall (fun e => blt x (fst e) = true) d.   (* x < all keys *)
+  Definition kgt (x : bytes) (d : db) : Prop := Forall (fun e => blt (fst e) x = true) d.   (* all keys < x *)
+
+  Fixpoint sorted (d : db) : Prop :=
+    match d with
+    | [] => True
+    | e :: d' => klt (fst e) d' /\ sorted d'
+    end.
+
+  Lemma sorted_app A B :
+    sorted (A ++ B) <-> sorted A /\ sorted B /\ Forall (fun a => klt (fst a) B) A.
+  Proof.
+    induction A as [|a A IH]; simpl.
+    - split; [intros; repeat split; auto|tauto].
+    - unfold klt in *. rewrite Forall_app, IH. split.
+      + intros [[H1 H2] [H3 [H4 H5]]]. repeat split; auto.
+      + intros [[H1 H2] [H3 H4]]. inversion H4; subst. repeat split; auto.
+  Qed.
+
+  (* seek: everything before the cursor is below x, the entry under the cursor is not *)
+  Lemma seek_split A B x :
+    kgt x A -> match B with [] => True | e :: _ => blt (fst e) x = false end ->
+    seek (A ++ B) x = (A, B).
+  Proof.
+    intros HA HB. induction A as [|[k v] A IH]; simpl.
+    - destruct B as [|[k v] B]; simpl; [reflexivity|]. simpl in HB. now rewrite HB.
+    - inversion HA; subst. simpl in H1. rewrite H1. now rewrite IH.
+  Qed.
+
+  Lemma bcmp_gt_of_blt x k : blt k x = true -> bcmp x k = Gt.
+  Proof. unfold blt. rewrite (bcmp_antisym k x). destruct (bcmp k x); simpl; congruence. Qed.
+  Lemma bcmp_lt_of_blt x k : blt x k = true -> bcmp x k = Lt.
+  Proof. unfold blt. destruct (bcmp x k); congruence. Qed.
+
+  (* put of a key that sits between A and B *)
+  Lemma db_put_mid ow A B x v :
+    kgt x A -> klt x B -> db_put ow (A ++ B) x v = (A ++ (x, v) :: B, true).
+  Proof.
+    intros HA HB. induction A as [|[k w] A IH]; simpl.
+    - destruct B as [|[k w] B]; simpl; [reflexivity|].
+      inversion HB; subst. simpl in H1. now rewrite (bcmp_lt_of_blt _ _ H1).
+    - inversion HA; subst. simpl in H1. rewrite (bcmp_gt_of_blt _ _ H1). now rewrite IH.
+  Qed.
+
+  (* put of a key that is present *)
+  Lemma db_put_hit ow A B x v0 v :
+    kgt x A ->
+    db_put ow (A ++ (x, v0) :: B) x v =
+      if ow then (A ++ (x, v) :: B, true) else (A ++ (x, v0) :: B, false).
+  Proof.
+    intros HA. induction A as [|[k w] A IH]; simpl.
+    - rewrite bcmp_refl. now destruct ow.
+    - inversion HA; subst. simpl in H1. rewrite (bcmp_gt_of_blt _ _ H1). rewrite IH by assumption.
+      now destruct ow.
+  Qed.
+
+  Lemma db_get_skip A B x :
+    Forall (fun e => fst e <> x) A -> db_get (A ++ B) x = db_get B x.
+  Proof.
+    intros HA. induction A as [|[k w] A IH]; simpl; [reflexivity|].
+    inversion HA; subst. simpl in H1.
+    destruct (bcmp x k) eqn:E; [apply bcmp_eq in E; congruence| |]; now apply IH.
+  Qed.
+
+  Lemma db_get_hd B x v : db_get ((x, v) :: B) x = Some v.
+  Proof. simpl. now rewrite bcmp_refl. Qed.
+
+  Lemma db_get_none A x : Forall (fun e => fst e <> x) A -> db_get A x = None.
+  Proof. intros H. rewrite <- (app_nil_r A). now rewrite db_get_skip. Qed.
+
+  Lemma db_del_hit A B x v :
+    Forall (fun e => fst e <> x) A -> db_del (A ++ (x, v) :: B) x = (A ++ B, true).
+  Proof.
+    intros HA. induction A as [|[k w] A IH]; simpl.
+    - now rewrite bcmp_refl.
+    - inversion HA; subst. simpl in H1.
+      destruct (bcmp x k) eqn:E; [apply bcmp_eq in E; congruence| |]; now rewrite IH.
+  Qed.
+
+  Lemma db_del_none A x : Forall (fun e => fst e <> x) A -> db_del A x = (A, false).
+  Proof.
+    intros HA. induction A as [|[k w] A IH]; simpl; [reflexivity|].
+    inversion HA; subst. simpl in H1.
+    destruct (bcmp x k) eqn:E; [apply bcmp_eq in E; congruence| |]; now rewrite IH.
+  Qed.
+
+  Lemma kgt_neq x A : kgt x A -> Forall (fun e => fst e <> x) A.
+  Proof. apply Forall_impl. intros e H. now apply blt_neq. Qed.
+  Lemma klt_neq x A : klt x A -> Forall (fun e => fst e <> x) A.
+  Proof. apply Forall_impl. intros e H E. symmetry in E. revert E. now apply blt_neq. Qed.
+
+  Lemma last_entry_app A (e : bytes * V) : last_entry (A ++ [e]) = Some e.
+  Proof. unfold last_entry. now rewrite rev_unit. Qed.
+  Lemma last_entry_nil : last_entry (@nil (bytes * V)) = None.
+  Proof. reflexivity. Qed.
+
+  (* every sorted list splits around any key: entries below x, maybe x itself, entries above x *)
+  Lemma sorted_split d x : sorted d ->
+    exists A B, d = A ++ B /\ kgt x A /\
+      (klt x B \/ exists v B', B = (x, v) :: B' /\ klt x B').
+  Proof.
+    induction d as [|[k v] d IH]; intros S.
+    - exists [], []. split; [reflexivity|]. split; [constructor|]. left. constructor.
+    - destruct S as [S1 S2]. simpl in S1.
+      destruct (blt k x) eqn:E1.
+      + destruct (IH S2) as (A & B & -> & HA & HB).
+        exists ((k, v) :: A), B. repeat split; auto. constructor; auto.
+      + exists [], ((k, v) :: d). split; [reflexivity|]. split; [constructor|].
+        destruct (blt x k) eqn:E2.
+        * left. constructor; auto. eapply Forall_impl; [|exact S1].
+          intros e H. simpl in H. eapply blt_trans; eauto.
+        * right. assert (k = x) by now apply blt_total. subst. exists v, d. split; auto.
+  Qed.
+End Sorted.
